@@ -14,6 +14,12 @@ use std::sync::{Arc, Mutex};
 
 fn assert_send_sync<T: Send + Sync>() {}
 
+/// does the source mention the identifier `k`?
+fn mentions_k(src: &str) -> bool {
+    let b = src.as_bytes();
+    (0..b.len()).any(|i| b[i] == b'k' && (i == 0 || !(b[i - 1].is_ascii_alphanumeric() || b[i - 1] == b'_' || b[i - 1] == b'\'' || b[i - 1] == b'.')) && (i + 1 == b.len() || !(b[i + 1].is_ascii_alphanumeric() || b[i + 1] == b'_' || b[i + 1] == b'\'')))
+}
+
 /// programs are told apart by their position's expected answer and index of first occurrence
 fn srcs_key(_progs: &[Program], i: usize, expected: &[String]) -> (String, usize) {
     (expected[i].clone(), SRC_IDS.with(|m| m.borrow().get(i).copied().unwrap_or(i)))
@@ -41,6 +47,9 @@ fn main() {
         let log: Log = Arc::new(Mutex::new(vec![]));
         let compiled: Vec<(&str, Program)> = srcs.iter().filter_map(|s| Program::compile(s).ok().map(|p| (*s, p))).collect();
         SRC_IDS.with(|m| *m.borrow_mut() = compiled.iter().map(|(s, _)| compiled.iter().position(|(s2, _)| s2 == s).unwrap()).collect());
+        let srcs_ok: Vec<&str> = compiled.iter().map(|(s, _)| *s).collect();
+        let uses_k: Vec<bool> = srcs_ok.iter().map(|s| mentions_k(s)).collect();
+        let (srcs_ok, uses_k) = (&srcs_ok, &uses_k);
         let progs: Vec<Program> = compiled.into_iter().map(|(_, p)| p).collect();
         let verdict = spec.with_context(&log, |root| {
             // sequential reference
@@ -55,12 +64,23 @@ fn main() {
                         for r in 0..rounds {
                             let mut inner = root.new_inner_scope();
                             inner.add_variable_from_value("thread_local", Value::Int((t * 1000 + r) as i64));
+                            // `k` is bound differently in every inner scope: a program mentioning it
+                            // must yield what a freshly compiled copy yields alone in that scope
+                            inner.add_variable_from_value("k", Value::Int((t * 7 + r) as i64 % 11));
                             // each thread walks the programs from a different starting point
-                            for k in 0..progs.len() {
-                                let i = (k + t) % progs.len();
+                            for j in 0..progs.len() {
+                                let i = (j + t) % progs.len();
                                 let got = result_to_sx(&progs[i].execute(&inner)).to_text();
-                                if got != expected[i] {
-                                    *bad.lock().unwrap() = Some(format!("thread {t} round {r} program {i}: {got} instead of {}", expected[i]));
+                                let want = if uses_k[i] {
+                                    match Program::compile(srcs_ok[i]) {
+                                        Ok(fresh) => result_to_sx(&fresh.execute(&inner)).to_text(),
+                                        Err(_) => expected[i].clone(),
+                                    }
+                                } else {
+                                    expected[i].clone()
+                                };
+                                if got != want {
+                                    *bad.lock().unwrap() = Some(format!("thread {t} round {r} program {i}: {got} instead of {want}"));
                                 }
                             }
                         }
